@@ -30,7 +30,9 @@ LEVEL_TEXT = ("Lean theorems for all stored-record maps, outcome scripts, lifecy
 THEOREMS = [("Kopf.Props.C02", "Kopf.C02." + n) for n in [
     "no_rerun", "retry_kwarg", "invoked_selected_awake", "closed_iff_all_finished", "closed_purges",
     "closed_purges_skip", "closed_purges_subrefs", "finished_persists", "final_outcome_recorded", "noExtras_preserved",
-    "finished_never_invoked", "once_per_cycle", "finished_never_invoked_varying", "once_per_cycle_varying", "stale_view_reruns"]]
+    "finished_never_invoked", "once_per_cycle", "finished_never_invoked_varying", "once_per_cycle_varying", "stale_view_reruns",
+    "due_invoked_all_at_once", "sub_no_rerun", "sub_retry_kwarg", "parent_final_iff_subs_finished", "sub_records_covered", "sub_writes_only_known",
+    "sub_records_purged_on_close"]]
 TIE_THEOREMS = [("Kopf.Tie.C02", "Kopf.C02.Tie." + n) for n in [
     "finished_eq", "sleeping_eq", "awakened_eq", "success_eq", "failure_eq", "one_by_one_eq", "all_at_once_eq"]]
 RULE = ("seeded scenarios: 1-4 change handlers (create/update/delete/resume, optional sub-handlers), outcome scripts over "
@@ -350,6 +352,33 @@ def abstract(cyc: dict, lifecycle: str) -> tuple[list, dict] | None:
     return req, impl
 
 
+def abstract_subs(cyc: dict, lifecycle: str) -> list[tuple[list, dict]]:
+    """The sub-passes (`subhandling.execute`) observed inside this top-level pass, one model request each;
+    the implementation side: which sub-handlers were called with which `retry`, the outcome the parent got,
+    and the sub-records the object carries afterwards (unless the closing purge removed them)."""
+    p = cyc.get("pcc") or {}
+    out = []
+    for sp in p.get("subpasses") or []:
+        if "error" in sp or sp.get("outcomes") is None or p.get("outcomes") is None:
+            continue
+        parent = sp["parent"]
+        po = p["outcomes"].get(parent)
+        if po is None:
+            continue
+        known = sp["known"]
+        req = ["C02.subpass", {"owned": known, "selected": sp["selected"], "limits": sp["limits"], "reason": sp["reason"],
+                               "lifecycle": lifecycle, "P": sp["P"], "outcomes": sp["outcomes"], "now": sp["now"],
+                               "now1": sp["now1"] if sp["now1"] is not None else sp["now"], "universe": known}]
+        impl: dict[str, Any] = {"invoked": [[i["id"], i["retry"]] for i in cyc["invoked"] if i["id"] in known],
+                                "final": po["final"], "error": po["error"], "delay": po["delay"],
+                                "subrefs": sorted(po["subrefs"])}
+        after = p.get("P_after")
+        survives = isinstance(after, dict) and "error" not in after and after.get(parent) is not None
+        impl["P"] = {k: after.get(k) for k in known} if survives else None
+        out.append((req, impl))
+    return out
+
+
 def run(ctx: Ctx) -> None:
     n = ctx.budget(120, 4000)
     scenarios = [gen_scenario(ctx.rng, ctx.seed * 100000 + i) for i in range(n)]
@@ -386,6 +415,16 @@ def run(ctx: Ctx) -> None:
             reqs.append(req)
             impls.append(impl)
             where.append({"scenario": sc, "cycle": cyc["i"]})
+            for sreq, simpl in abstract_subs(cyc, lifecycle):
+                reqs.append(sreq)
+                impls.append(simpl)
+                where.append({"scenario": sc, "cycle": cyc["i"], "subpass_of": sreq[1]["selected"][0].rsplit("/", 1)[0]})
+                ctx.count("subpass", "final" if simpl["final"] else "children-retry")
+                ctx.case(key={"sub": True, "sel": len(sreq[1]["selected"]), "lc": lifecycle,
+                              "P": sorted((bool(v and (v["success"] or v["failure"])), bool(v and v["delayed"] is not None))
+                                          for v in sreq[1]["P"].values() if v),
+                              "out": sorted((o["final"], o["error"], o["delay"] is not None) for o in sreq[1]["outcomes"].values())},
+                         nontrivial=True)
     ctx.count("scenarios", "run", len(scenarios))
     try:
         outs = ctx.driver.ask(reqs)
@@ -397,6 +436,11 @@ def run(ctx: Ctx) -> None:
             ctx.tie_fail("driver rejected a pass", {"request": req, "answer": out, **wh})
             continue
         m = out[1]
+        if req[0] == "C02.subpass":
+            model = {"invoked": m["invoked"], "final": m["final"], "error": m["error"], "delay": m["delay"],
+                     "subrefs": sorted(m["subrefs"]), "P": m["P"] if impl["P"] is not None else None}
+            ctx.compare("C02 sub-handler pass", impl, model, wh)
+            continue
         top = set(req[1]["owned"])
         model = {"invoked": m["invoked"], "P": {k: v for k, v in m["P"].items() if k in top},
                  "purged_subs": impl["purged_subs"] if all(m["P"].get(k) is None for k in impl["purged_subs"]) else
